@@ -1629,7 +1629,9 @@ fn run(a: &Args) {
                                         if let Some(l) = after.socket_deadlines.iter().position(|d| d.is_some()) {
                                             let msg = format!("listener {l} is in accept back-off (deadline pending) but Accept::timeout is None after this iteration: nothing will wake the accept thread to re-register it, waiting connections are stranded");
                                             w.t3.push(("C05".into(), msg.clone()));
-                                            w.t3.push(("C03".into(), msg));
+                                            w.t3.push(("C03".into(), msg.clone()));
+                                            // … and C01's: the connection waiting there never reaches its service
+                                            w.t3.push(("C01".into(), msg));
                                         }
                                     }
                                     // C05 / C03: … and armed EARLY enough: the accept thread must not sleep past the earliest
